@@ -35,6 +35,8 @@ def defects_of(label):
         return ["sexp-hidden-missing"]
     if rest == "error-parent-has-no-field-map":
         return ["child-by-field-error-parent"]
+    if rest == "inherited-entry-on-visible-child":
+        return ["child-by-field-enters-visible-child"]
     return [label]
 
 
@@ -72,7 +74,7 @@ def run(ctx):
     ctx.assumptions += ["byte/row/column quantities < 2^32", "theorems assume Summarized/shapeOK of C02 (checked on every real tree by ./check C02)"]
     ctx.extra_lean_dirs = ["C02"]
     ctx.regen()
-    ctx.prove(["TsVerif.C06.Props", "TsVerif.C06.CursorProps", "TsVerif.C06.NodeProps", "TsVerif.C06.SiblingZw", "TsVerif.C06.NavVariants", "TsVerif.C06.FlatProps", "TsVerif.C06.FieldProps", "TsVerif.C06.SiblingNamed", "TsVerif.C06.SiblingNamedNext", "TsVerif.C06.NamedFcb", "TsVerif.C06.CursorFcb"], "TsVerif/C06/Audit.lean")
+    ctx.prove(["TsVerif.C06.Props", "TsVerif.C06.CursorProps", "TsVerif.C06.NodeProps", "TsVerif.C06.SiblingZw", "TsVerif.C06.NavVariants", "TsVerif.C06.FlatProps", "TsVerif.C06.FieldProps", "TsVerif.C06.SiblingNamed", "TsVerif.C06.SiblingNamedNext", "TsVerif.C06.NamedFcb", "TsVerif.C06.CursorFcb", "TsVerif.C06.FieldWitness"], "TsVerif/C06/Audit.lean")
     driver = ctx.build_driver("tsv-c06")
     explorer = ctx.cargo_bin("c06")
     langdump = ctx.cunit("cunit_c02")
@@ -116,8 +118,9 @@ def run(ctx):
     hidden_extra_bad = 0
     hidden_missing_trees = 0
     unsorted_langs = set()
+    skip_langs = set()
     par = {"parchk": 0, "parzw": 0, "parbad": 0, "parflat": 0, "nschk": 0, "nsout": 0, "nsbad": 0, "nsflat": 0,
-           "pschk": 0, "psout": 0, "psbad": 0, "psflat": 0, "cfcchk": 0, "cfcout": 0, "cfcbad": 0, "cfcflat": 0, "nnschk": 0, "nnsout": 0, "nnsbad": 0, "nnsflat": 0, "npschk": 0, "npsout": 0, "npsbad": 0, "npsflat": 0, "cbfchk": 0, "cbfout": 0, "cbfbad": 0, "cbfflat": 0, "nfcbchk": 0, "nfcbout": 0, "nfcbbad": 0, "nfcbflat": 0, "ndfrchk": 0, "ndfrbad": 0, "ndfrflat": 0, "pdfrchk": 0, "pdfrbad": 0, "pdfrflat": 0, "znschk": 0, "znsout": 0, "znsbad": 0, "zpschk": 0, "zpsout": 0, "zpsbad": 0, "pgenbad": 0, "znsoutpar": 0, "znsoutfollow": 0, "znsoutzw": 0, "zpsoutpar": 0, "zpsoutid": 0, "zpsoutzw": 0, "fcbchk": 0, "fcbout": 0, "fcbbad": 0, "fcbflat": 0, "dfrchk": 0, "dfrbad": 0, "dfrflat": 0}
+           "pschk": 0, "psout": 0, "psbad": 0, "psflat": 0, "cfcchk": 0, "cfcout": 0, "cfcbad": 0, "cfcflat": 0, "nnschk": 0, "nnsout": 0, "nnsbad": 0, "nnsflat": 0, "npschk": 0, "npsout": 0, "npsbad": 0, "npsflat": 0, "cbfchk": 0, "cbfout": 0, "cbfbad": 0, "cbfflat": 0, "cbfskip": 0, "nfcbchk": 0, "nfcbout": 0, "nfcbbad": 0, "nfcbflat": 0, "ndfrchk": 0, "ndfrbad": 0, "ndfrflat": 0, "pdfrchk": 0, "pdfrbad": 0, "pdfrflat": 0, "znschk": 0, "znsout": 0, "znsbad": 0, "zpschk": 0, "zpsout": 0, "zpsbad": 0, "pgenbad": 0, "znsoutpar": 0, "znsoutfollow": 0, "znsoutzw": 0, "zpsoutpar": 0, "zpsoutid": 0, "zpsoutzw": 0, "fcbchk": 0, "fcbout": 0, "fcbbad": 0, "fcbflat": 0, "dfrchk": 0, "dfrbad": 0, "dfrflat": 0}
     ns_bad_cases = []
     par_bad_cases = []
     per_clause = {}
@@ -148,6 +151,8 @@ def run(ctx):
             hidden_missing_trees += 1
         for k in par:
             par[k] += int(kv.get(k, "0") or 0)
+        if int(kv.get("cbfskip", "0") or 0) > 0:
+            skip_langs.add(lang)
         if (int(kv.get("parbad", "0") or 0) or int(kv.get("parflat", "0") or 0)) and len(par_bad_cases) < 3:
             par_bad_cases.append("%s: %s" % (cid, specs.get(cid, "")[:120]))
         if (int(kv.get("nsbad", "0") or 0) or int(kv.get("nsflat", "0") or 0) or int(kv.get("psbad", "0") or 0)
@@ -259,7 +264,8 @@ def run(ctx):
                "%d (node, field) pairs checked, %d outside, %d bad, %d differ from flatten %s" % (par["cbfchk"], par["cbfout"], par["cbfbad"], par["cbfflat"], "; ".join(ns_bad_cases)))
     ctx.oblige("corr:fieldMapsSorted-holds-on-every-language-dump(language-level premise of child_by_field_id_spec: per production and field strictly increasing child indices)",
                not unsorted_langs, "languages with an unsorted field map: %s" % ", ".join(sorted(unsorted_langs)))
-    ctx.coverage["child_by_field_id_spec"] = {"pairs_checked": par["cbfchk"], "pairs_outside_the_theorem(cbfOK false)": par["cbfout"], "conclusion_failures": par["cbfbad"],
+    ctx.coverage["child_by_field_id_spec"] = {"pairs_where_the_scan_passes_a_hidden_child_without_the_field_before_the_answer": par["cbfskip"],
+                                              "languages_with_such_pairs": sorted(skip_langs), "pairs_checked": par["cbfchk"], "pairs_outside_the_theorem(cbfOK false)": par["cbfout"], "conclusion_failures": par["cbfbad"],
                                               "cbfSpec_vs_flatten_differences": par["cbfflat"], "languages_with_unsorted_field_map": sorted(unsorted_langs)}
     ctx.oblige("corr:first_child_for_byte_spec_anon-NAMED-variant-conclusion-holds-wherever-ndeNodeA-holds(same nodes and goals) and fcbNodeA=first-NAMED-child-ending-after-the-goal-in-the-flattened-tree",
                par["nfcbbad"] == 0 and par["nfcbflat"] == 0 and (par["nfcbchk"] > 0 or evals == 0 or bool(ctx.replay)),
@@ -305,4 +311,9 @@ def run(ctx):
         if len(distinct) * 4 < evals:
             ctx.oblige("generator:nontrivial-fraction>=25%", False, "%d of %d" % (len(distinct), evals))
         ctx.oblige("generator:has-node-with->255-raw-children", max_fanout > 255, "max fan-out %d" % max_fanout)
+        # seed-independent by construction (corpus/c06.txt, grammar twofld); the random twofld documents add more
+        ctx.oblige("generator:child_by_field-scan-passes-a-hidden-child-WITHOUT-the-field-before-reaching-the-child-that-has-it"
+                   "(one field inherited through several hidden children with optional/alternative content: only there the 'go on with the next "
+                   "field-map entry' branch of ts_node_child_by_field_id decides the answer)", par["cbfskip"] >= 8,
+                   "%d (node, field) pairs, languages %s" % (par["cbfskip"], ", ".join(sorted(skip_langs))))
     return ctx.finish()
